@@ -4,8 +4,9 @@ The quick tier of a sweep explores a spread of instruction-space shards; the tho
 committed data files let the quick tier add the shards a change can affect:
 
 * vf/repo_hashes.json -- sha1 of every armulator/**/*.py of the tree on which the thorough tiers last passed;
-* vf/shard_files.json -- for every shard, the repository source files whose functions executed under the proxies
-  while the shard was explored (collected by the runner with sys.setprofile during a thorough run of C18).
+* vf/shard_files.json -- for every shard, the opcode modules (concrete encoding class + its abstract base) of the
+  classes the real decoder returns on the shard's decoder paths (from the decoder-path units of C06/C07, which explore
+  every shard in the quick tier; tools/gen_shard_files.py).
 
 changed_files() = files whose hash differs from repo_hashes.json (new, modified or deleted).  extra_shards(names)
 returns the shards that executed one of the changed files, provided each changed file is NARROW (executed by at most
@@ -91,11 +92,15 @@ def extra_shards(all_names):
             info['wide'].append(m)
     seen = set()
     out = []
-    allset = set(all_names)
+    # sweep shards of block transfers carry a register-list window suffix (A/84/list-r12-15): select every window
+    by_base = {}
+    for n in all_names:
+        by_base.setdefault(n.split('/list')[0], []).append(n)
     for s in picked:
-        if s in allset and s not in seen:
-            seen.add(s)
-            out.append(s)
+        for n in by_base.get(s, []):
+            if n not in seen:
+                seen.add(n)
+                out.append(n)
     out = out[:EXTRA_MAX]
     info['selected'] = len(out)
     return out, info
